@@ -290,6 +290,18 @@ def variant_map_rule(ctx, crate, crs, tag):
             kinds.discard(("ConflictCause", "?const"))
             kinds.discard(("ConflictCause", "?"))
         ok = kinds == {exp["edge"]}
+        if v != "Requires" and lp and edges_here:
+            hdr = lp[-1][0]
+            cut = []
+            if v == "ForbidMultipleInstances":
+                # the nodes of one package form a chain: the first one has no predecessor to link to (None of the map insert)
+                for cc in q.conds(b, crs):
+                    if cc.bb in region and cc.kind == "discr" and cc.adt == "std::option::Option" and cc.src and cc.src.get("k") == "call" \
+                            and cc.src["t"]["f"]["name"] == "insert" and cc.target("None") is not None:
+                        cut.append((cc.bb, cc.target("None")))
+            free = q.reach_cut(b, cut + [(pp, i) for i, t in edges_here for pp in b.preds()[i]], start=tgt)
+            ctx.ob(R, b.key, "arm:%s:edge-on-every-path" % v, tgt not in [i for i, t in edges_here] and hdr not in free, b.loc(tgt),
+                   "every reported %s clause yields its edge (no path through the arm skips add_edge)" % v)
         ctx.ob(R, b.key, "arm:%s->%s::%s" % (v, exp["edge"][0], exp["edge"][1]), ok, b.loc(tgt),
                "edges built in the %s arm: %s" % (v, sorted(kinds)))
     # Requires arm: candidates come from the cache lookup of the same requirement; empty -> unresolved node
@@ -309,12 +321,12 @@ def variant_map_rule(ctx, crate, crs, tag):
                 d, _ = q.origin_thru(b, t["args"][2], transparent=set())
                 if d["k"] == "call" and d["t"]["f"]["name"] == "add_node" and len(d["t"]["args"]) >= 3:
                     lps = [l for l in for_loops(b, crs) if i in l[1] and l[0] in region]
-                    if lps and elem_of_loop(b, lps[0], d["t"]["args"][2]) and visits_all(b, lps[0]):
+                    if lps and elem_of_loop(b, lps[0], d["t"]["args"][2]) and visits_all(b, lps[0]) and unconditional_in_loop(b, crs, i)[0]:
                         src = b.blocks[lps[0][2]]["term"]["args"][0]
                         sd, ch = q.origin_thru(b, src, transparent=q.TRANSPARENT | {"std::result::Result::unwrap_or_else", "resolvo::runtime::AsyncRuntime::block_on"})
                         okt = True
         ctx.ob(A, b.key, "requires:edge-targets-are-all-candidates", okt and bool(look), b.loc(tgt),
-               "one requires edge per cached candidate of the requirement (loop over the whole lookup result)")
+               "one requires edge per cached candidate of the requirement (loop over the whole lookup result, edge added unconditionally)")
         cs2 = q.conds(b, crs)
         oke = False
         for cc in cs2:
